@@ -654,13 +654,22 @@ func (w *c15World) deployOK() string {
 	case <-time.After(c15W()):
 		return "timeout-start"
 	}
-	select {
-	case <-w.clk.everyCh:
-	case <-time.After(c15W()):
-		return "timeout-running"
-	}
-	if !w.sync() {
-		return "timeout-sync"
+	// the task that sets Running (and creates the ticker, and evaluates) is enqueued by the start goroutine next
+	deadline := time.Now().Add(c15W())
+	for {
+		if !w.sync() {
+			return "timeout-sync"
+		}
+		if w.job.VerifStatusC15() != "Starting" {
+			if !w.sync() { // a status read in the middle of that task is not final
+				return "timeout-sync"
+			}
+			break
+		}
+		if time.Now().After(deadline) {
+			return "timeout-running"
+		}
+		time.Sleep(100 * time.Microsecond)
 	}
 	w.mu.Lock()
 	as := c15Join(w.assigned)
@@ -1128,6 +1137,7 @@ type c15Gen struct {
 	acked   map[string]bool
 	deploys int
 	tag     int
+	stale   []string // unsent messages of the checkpoint that was in flight when the last fault struck
 }
 
 // keyed events from the runners of the assembly to its operators (unique tags), sometimes a batch timer
@@ -1305,6 +1315,9 @@ func (g *c15Gen) fault() {
 	if len(g.asmO) == 0 {
 		return
 	}
+	if g.pending {
+		g.stale = g.roundSteps()
+	}
 	kind := lib.Pick(g.r, []string{"o", "s"})
 	victim := lib.Pick(g.r, g.asmO)
 	if kind == "s" {
@@ -1411,6 +1424,12 @@ func c15Gen1(r *lib.Rng, tier string, idx int) lib.Case {
 				g.reg("s", i)
 			}
 		case "Starting":
+			if len(g.stale) > 0 && r.Chance(1, 2) { // late messages of the abandoned checkpoint
+				for n := r.Range(1, len(g.stale)); n > 0; n-- {
+					g.add("%s", g.stale[0])
+					g.stale = g.stale[1:]
+				}
+			}
 			switch {
 			case r.Chance(3, 4):
 				g.deployOK()
@@ -1466,6 +1485,11 @@ func c15Fixed() []lib.Case {
 		{Header: c15Header(1, 5, 0), Tags: []string{"D15"}, Ops: []string{
 			"reg o 0", "reg s 1", "deployok", "tick", "ack s 1 1", "bar 0 1 1", "dereg s 1", "reg s 2", "deployok",
 			"tick", "ack s 2 2", "bar 0 2 2", "st"}},
+		// a surviving operator completes the alignment of the abandoned checkpoint while the new deployment is being
+		// started; the job refuses the acknowledgement, the completed record stays — and must be gone after the deploy
+		{Header: c15Header(2, 5, 0), Tags: []string{"refused-ack"}, Ops: []string{
+			"reg o 0", "reg o 1", "reg s 2", "reg s 3", "deployok", "tick", "ack s 2 1", "ack s 3 1", "bar 0 2 1", "dereg s 3", "reg s 4",
+			"bar 0 3 1", "st", "bar 0 3 1", "deployok", "tick", "ack s 2 2", "ack s 4 2", "bar 0 2 2", "bar 0 4 2", "bar 1 2 2", "bar 1 4 2", "st"}},
 		// D45 (open finding): an event queued at surviving operator 0 in the first deployment is handed to the handler in
 		// the second one, on the restored state
 		{Header: c15Header(2, 5, 0), Tags: []string{"D45"}, Ops: []string{
